@@ -24,7 +24,8 @@ def pick_boundary(rng, lo, hi):
 
 
 def gen_case(rng: random.Random, tier):
-    addr_bits = rng.choice([8, 10, 12, 16, 16, 16, 20, 24])
+    # wide address spaces too: every comparison of addresses is exact integer arithmetic, also beyond 2**53
+    addr_bits = rng.choice([8, 10, 12, 16, 16, 16, 20, 24, 56, 64, 64])
     isa, ctx = gen.base_isa(rng, addr_bits=addr_bits)
     de = ctx.default_endian
     maxaddr = (1 << addr_bits) - 1
@@ -38,6 +39,8 @@ def gen_case(rng: random.Random, tier):
     ctx.gstart, ctx.gend = gstart, gend
     kind = rng.choice(['ranged', 'fit', 'fit', 'valid_address', 'addr_zone', 'sliced', 'rel', 'rel', 'numenum', 'indirect_fit'])
     addr = rng.randint(gstart, max(gstart, gend - 30))
+    if addr_bits > 53 and rng.random() < 0.7:
+        addr = max(gstart, gend - rng.randint(30, 1 << 20))       # near the top of the wide address space
     opcfg = {}
     arg = code = None
     n = gen.gen_size(rng)
@@ -99,6 +102,8 @@ def gen_case(rng: random.Random, tier):
         text = gen.lit(rng, v)
     elif kind == 'sliced':
         w = rng.randint(1, max(1, addr_bits - 1))
+        if addr_bits > 53 and rng.random() < 0.7:
+            w = rng.choice([4, 8, 8, 12, 16])                      # small pages: neighbouring pages differ far below 2**53
         opcfg = {'type': 'address', 'argument': gen.gen_arg_cfg(rng, de, size=w)}
         opcfg['argument']['slice_lsb'] = True
         opcfg['argument']['match_address_msb'] = rng.random() < 0.85
